@@ -175,6 +175,43 @@ for i in range(30 * SCALE):
         fail("reference-writer", "reference rendering of the same response loads differently", xml)
     emitted.append((xml, resp, nb))
 
+# ------------------------------------------------------------------ 2b. document level: the writer's element structure and the loader vs Model.SkrDoc
+from kgen import coq_response, handle
+
+
+def coq_val(v, name=None):
+    if isinstance(v, str):
+        if name == "PublicKey":
+            return f"(VStr {handle(v.encode())})"
+        if name == "SignatureData":
+            return f"(VStr {handle(b'sig:' + v.encode())})"
+        return f"(VStr {txt(v)})"
+    if isinstance(v, list):
+        return "(VList [" + ";".join(coq_val(x, name) for x in v) + "])"
+    if isinstance(v, dict):
+        if set(v.keys()) == {"attrs", "value"}:
+            return f"(VAttrs [{';'.join(f'({txt(k)}, {txt(x)})' for k, x in v['attrs'].items())}] {coq_val(v['value'], name)})"
+        return "(VNode [" + ";".join(f"({txt(k)}, {coq_val(x, k)})" for k, x in v.items()) + "])"
+    raise TypeError(type(v))
+
+
+dcases, dmeta = [], []
+for xml, resp, nb in emitted[: (10 if TIER == "quick" else 60)]:
+    pr = vlib.run_impl(xp.parse_ksr, xml)
+    ld = vlib.run_impl(response_from_xml, xml)
+    doc = "(OK [" + ";".join(f"({txt(k)}, {coq_val(v, k)})" for k, v in pr[1].items()) + "])" if pr[0] == "ok" else f"(Raise {pr[1]})"
+    loaded = f"(OK {coq_response(ld[1], with_txt='handle', with_data='handle', with_pub=False, keep_order=True)})" if ld[0] == "ok" else f"(Raise {ld[1]})"
+    dcases.append(f"({coq_response(resp, with_txt='handle', with_data='handle', with_pub=False, keep_order=True)}, {doc}, {loaded})")
+    dmeta.append({"kind": "skr-document", "desc": {"bundles": nb, "xml_bytes": len(xml)}, "spec_ok": True, "spec_msg": "", "key": None})
+    count("skr-document")
+if dcases:
+    drunner = vlib.CaseRun("C11", "doc", "From KV Require Import Base.Prelude Base.Exn Model.Data Model.Xml Model.SkrDoc Checks.C11Check.", "doc_case", "check_doc", shard=2)
+    dresults = drunner.run(dcases) if ok_build else [-1] * len(dcases)
+    props_doc = dict(props)
+    props_doc["ok"] = True
+    vlib.classify(rep, props_doc, dmeta, dresults, dcases, drunner, "Checks.C11Check.check_doc (skr_to_xml element structure / response_from_xml vs Model.SkrDoc)")
+    drunner.cleanup()
+
 # ------------------------------------------------------------------ 3. every proper prefix fails to load or loads identically
 n_prefix = 0
 loads_identical = 0
